@@ -329,7 +329,7 @@ impl Scenario for W1Scenario {
 
     fn cases(&self, tier: Tier) -> u64 {
         match tier {
-            Tier::Quick => 30_000,
+            Tier::Quick => 80_000,
             Tier::Thorough => 400_000,
         }
     }
